@@ -42,7 +42,8 @@ class C04(Monitor):
                     if s.ok:
                         self.fail('overrun-accepted', 'DATA beyond the advertised window was accepted', s,
                                   fc_len=f.fc_len, conn=conn, stream=pre.recv_win if pre else None)
-                    elif single and s.exc.get('code') != C.FLOW_CONTROL_ERROR and receivable and pre.recv == 'final':
+                    elif single and s.exc.get('code') != C.FLOW_CONTROL_ERROR and receivable and pre.recv == 'final' \
+                            and f.length <= s.snap['mine'][C.S_MAX_FRAME_SIZE]:      # (an oversize frame is a FRAME_SIZE_ERROR first)
                         self.fail('overrun-wrong-code', 'DATA beyond the window rejected with another code', s,
                                   code=s.exc.get('code'))
                 elif single and not s.ok and s.exc['type'] == 'FlowControlError':
